@@ -711,7 +711,7 @@ def state(cls: str = "changing", *, labels: dict | None = None, annotations: dic
 
 
 def lean_h(h: dict) -> dict:
-    return {k: h[k] for k in LEAN_H}
+    return {k: (h.get("func", h["fn"]) if k == "func" else h[k]) for k in LEAN_H}   # (older corpus files have no `func`)
 
 
 def lean_c(c: dict) -> dict:
@@ -1439,6 +1439,8 @@ def run_select_case(env: Env, rec: Rec, case: dict, driver_reqs: list, pending: 
     hs = []
     for n_, (h, kind, explicit) in enumerate(case["handlers"]):
         h = dict(h)
+        h.setdefault("func", h["fn"])
+        h.setdefault("_bound", None)
         real = env.decorate(registry, h, kind, explicit_id=explicit)
         h["id"] = str(real.id)         # generated ids (fn name + field suffix) are read off the real handler
         if h.get("_bound") is not None:   # a fresh bound-method object per registration; one function
@@ -1757,7 +1759,7 @@ def random_sequence_case(rng: random.Random) -> dict:
         steps.append({"label": label, "annotation": rng.choice([None, None, "x"]), "field": rng.choice(VALS), "stored": rng.choice([NOOLD, "x", None]),
                       "event": "ADDED" if k == 0 else rng.choice(["MODIFIED", "MODIFIED", None]), "own_finalizer": "follow",
                       "foreign_finalizer": False, "marked": k > 2 and rng.random() < 0.15, "carried": False,
-                      "wait": rng.choice([0, 0, 0.08])})
+                      "wait": rng.choice([0, 0.01, 0.01, 0.08])})   # 0: the daemon may not even have started yet
     return {"handlers": hs, "steps": steps, "real_daemons": True, "stopped": []}
 
 
@@ -1885,9 +1887,9 @@ async def _one_cycle(env: Env, rec: Rec, case: dict, k: int, step: dict, own_fin
             mem.remaining_patch = env.patches.Patch(fns=[carried_user_fn])
         if preset:    # resuming handlers that already reached a final outcome here (/repo 6c4463d)
             mem.resumed_handlers.update(preset)
-    known = {m for m in memories.iter_all_memories()}
-    pre_resumed = sorted(next(iter(known)).resumed_handlers) if known else []
-    pre_stopped = sorted(str(x) for x in next(iter(known)).daemons_memory.forever_stopped) if known else []
+    known = list(memories.iter_all_memories())
+    pre_resumed = sorted(known[0].resumed_handlers) if known else []
+    pre_stopped = sorted(str(x) for x in known[0].daemons_memory.forever_stopped) if known else []
     await P.process_resource_event(
         lifecycle=env.lifecycles.all_at_once, indexers=env.indexing.OperatorIndexers(), registry=registry, settings=settings,
         memories=memories, memobase=memobase, resource=env.resource,
